@@ -23,6 +23,8 @@ def run(ctx):
         dscommon.run_family(ctx, "C01Clim", fmt="text", limit=200, fresh=False)
         # the same cases for every input also under a date / hour-of-day / time selection on files that list their times in different orders
         dscommon.run_family(ctx, "C02Sel", fmt="netcdf", limit=150)
+        # missing values marked the NetCDF way (a _FillValue of the file's own choosing, masked by the library)
+        dscommon.run_family(ctx, "C01Quick", fmt="netcdf", variant={"nc_missing": "fill"}, limit=150)
         # requests that name OTHER fields (quantiles, another score column) together with obs / fcst: every requested field in every input
         dscommon.run_family(ctx, "C01Extra", fmt="text", always_nontrivial=True)
         dscommon.run_family(ctx, "C01Extra", fmt="text", fresh=False, always_nontrivial=True)
